@@ -83,7 +83,7 @@ func TestVerifC06(t *testing.T) {
 	var cr2 uint64
 	readCR2Fn = func() uint64 { return cr2 }
 
-	n := run.N(300, 200000)
+	n := run.N(3000, 200000)
 	run.Cases(n, func(c *vlib.Case) {
 		r := c.R
 		m.reset()
